@@ -7,6 +7,10 @@ claims = {
    technique="explicit-state BFS over register/close histories on the real frps against a reference allocator + stateless deviation-bounded DFS over racing registrations (controlled scheduler, virtual port table)",
    text="(a) BFS over operation sequences on the real ports.Manager with external port squatting, every step compared with a reference allocator and the used/free partition invariant; (b) BFS over sequential register/close histories of two clients (tcp, udp, tcp group; ports 0 / in range / out of range; quota 2) on the real frps, deduplicated by the canonical dump of the server tables, with the oracle 'bound = accounted = reported, inside allowPorts, reachable at the reported address, quota respected, refused requests change nothing, previous port handed back'; (c) every schedule with at most B deviations of racing registrations, close-vs-reopen (tcp and udp), server-chosen vs fixed registration of the reserved port, and a port grabbed by another process between acquisition and listen.",
    note=E1_TRUST+" Bounds: 2 clients, 3 allowed ports, history depth 4 (quick) / 5 (thorough), deviation bound 2 / 3. The OS port table is vnet (port 0 = ephemeral port outside allowPorts, EADDRINUSE when bound or squatted).", ref="5/C09"),
+ "C10": dict(level="model_checking", engine="E1",
+   technique="fault enumeration + stateless deviation-bounded DFS over the real frps (controlled scheduler, virtual network and clock): every termination path x every proxy shape, control-connection cut injected at every scheduling point",
+   text="For 13 proxy shapes (tcp fixed/server-chosen port, tcp group, udp, http with 2 domains x 2 locations, http sub-domain, http group, https, tcpmux, tcpmux group, stcp, sudp, xtcp) and termination by close request, connection cut, re-login with the same run id and heartbeat timeout (virtual clock): two identical register/use/terminate cycles, all schedules with at most B deviations; the control connection cut as a fault at every scheduling point of register/use/close; registrations failing part-way (second domain / location conflicts, listen fails after the port was granted, for plain and grouped proxies); connection wrappers closed 3 times from 2 threads. Oracles: canonical dump of all server tables equals the dump before the registration, bound ports equal, no server-side connection left open at the end, no server thread left, identical registration succeeds (same session right after close / new session after the old ended), an unrelated proxy keeps serving, census (server threads, non-pooled server-side connections, listeners, sockets) equal after cycle 1 and 2.",
+   note=E1_TRUST+" Bounds: deviation bound 1 (quick) / 2 (thorough); 2 cycles; 90 virtual seconds allowed for 'shortly after'. HTTP idle backend connections of net/http's transport are outside E1 (checked with real sockets in C06).", ref="5/C10"),
  "C11": dict(level="model_checking", engine="E1",
    technique="stateless deviation-bounded DFS over all goroutine interleavings of the real frps (controlled scheduler, virtual network and clock) with scripted client behaviours",
    text="Every schedule with at most B deviations of user arrivals, work-connection arrivals, proxy close and session end, on four accept paths (direct listener, group listener, tcpmux vhost muxer, visitor listener) and for client behaviours {answers every request, never answers, offers a dead pooled connection, offers surplus connections}. Oracles: each user bridged to exactly one work connection announced with the right proxy name and the user's real address, or closed within userConnTimeout on the virtual clock; no work connection serves two users; advance requests = min(poolCount, maxPoolCount); pool never above capacity, surplus refused and closed; at session end every pooled or late work connection is closed; nothing is left open without a peer when a listener disappears mid hand-off.",
